@@ -175,10 +175,12 @@ class EffectivePotential(ABC):
                 tolerance = (1e-5 if tol is None else tol) * T[i] ** 4 / fieldScale
 
             # The finite-difference step of the minimiser's numerical gradient is absolute
-            # as well (1.49e-8 by default): take it relative to the field scale when the
-            # latter is large, otherwise Veff(phi + step) - Veff(phi) drowns in rounding.
+            # as well (1.49e-8 by default): take it relative to the field scale. When the
+            # latter is large Veff(phi + step) - Veff(phi) otherwise drowns in rounding,
+            # when it is small the step is not small compared to the fields and the
+            # forward difference displaces the minimum by about half a step.
             options = {}
-            if fieldScale > 1:
+            if fieldScale > 0:
                 options["eps"] = 1.4901161193847656e-08 * fieldScale
 
             res = scipy.optimize.minimize(
